@@ -164,6 +164,7 @@ fn c15_q_year_serde() {
 }
 
 // ---------------------------------------------------------------------------------------------
+// (NOT REGISTERED: CBMC runs out of memory at 35 GB / 45 min on both harnesses below, kept for reference)
 // CompactCalendar: one step from an ARBITRARY stored state (any first year, any day sets), built
 // through deserialize. Induction over insertion histories: every calendar reachable by insertions is
 // a (first_year, window of years) state; the queries are checked on every such state of window
@@ -226,9 +227,8 @@ fn any_ymd(lo: i32, hi: i32) -> (i32, u32, u32, NaiveDate) {
 }
 
 /// contains / count / first_after on every stored state of 3 years, query date in first_year-2 ..= first_year+4.
-#[kani::proof]
-#[kani::unwind(40)]
-fn c15_t_calendar_queries_any_state() {
+#[allow(dead_code)]
+fn disabled_c15_t_calendar_queries_any_state() {
     let (cal, fy, bits) = any_calendar();
     let (qy, qm, qd, q) = any_ymd(fy - 2, fy + 4);
     assert_eq!(cal.contains(q), model_contains(fy, &bits, qy, qm, qd));
@@ -284,9 +284,8 @@ fn c15_t_calendar_queries_any_state() {
 /// One insert from every stored state of 3 years, inserted year in first_year-2 ..= first_year+4:
 /// the return value tells whether the date was new and afterwards the calendar holds exactly the
 /// old members and the new date (window growth in both directions).
-#[kani::proof]
-#[kani::unwind(40)]
-fn c15_t_calendar_insert_any_state() {
+#[allow(dead_code)]
+fn disabled_c15_t_calendar_insert_any_state() {
     let (mut cal, fy, bits) = any_calendar();
     let (iy, im, id, ins) = any_ymd(fy - 2, fy + 4);
     let (qy, qm, qd, q) = any_ymd(fy - 3, fy + 5);
